@@ -529,6 +529,8 @@ def run(ctx: RuleContext, p: Program) -> None:
     ctx.try_rule(rule_own_tree, p, 'OWN-TREE')
     from .c19 import rule_detach_gate
     ctx.try_rule(rule_detach_gate, p, 'DETACH-GATE')
+    from . import round4 as _r4
+    ctx.try_rule(_r4.rule_iter_once, p, 'ITER-ONCE')
     ctx.not_decided += ['nesting / non-overlap of child spans (runtime)', 'single ownership of every significant token (runtime)',
                         'that every tree leaf is currently in the store (runtime)']
     ctx.assumptions += ['reattach(store) re-binds a whole subtree (COVER-REATTACH)', 'tokens need no reattach (their store is their handle)']
